@@ -47,6 +47,7 @@ def run(ctx) -> None:
     ctx.rule("R6", "prerequisite: the real run writes exactly the record the diff was computed from - lines joined with the file's separator, to the configured path itself (C04/R1, R2, R4)")
     from sa.report import run_prerequisite
     run_prerequisite(ctx, "C04", ("R1", "R2", "R4"), "R6")
+    run_prerequisite(ctx, "C03", ("R6",), "R6")          # one file, one entry: the diff shows a file once and the write does not overwrite one entry's result with another's
     ctx.rule("R8", "--dry is a flag that is off unless given")
     shapes.cli_option_rule(ctx, "R8", ["--dry"])
     ctx.rule("R7", "a hook script that does not exist is rejected before the dry/real split (option type click.Path(exists=True); configured hooks checked by _parse_config)")
@@ -369,6 +370,9 @@ def run(ctx) -> None:
     else:
         ctx.require(False, "_print_diff_str: no branch on sys.stdout.isatty()")
 
+    for eng_ in ("v2rewrite", "v1rewrite"):
+        write_all_rule(ctx, "R2", eng_)
+
     # ---------------------------------------------------------------- R5
     pd_nodes = [ucfg.node_containing(c) for c in pdc]
     upstream = set()
@@ -409,3 +413,58 @@ def run(ctx) -> None:
         tests = [n for n in ast.walk(pcfg_fn.node) if isinstance(n, ast.If) and hk in unparse(n.test) and ".exists()" in unparse(n.test) and any(isinstance(x, ast.Raise) for x in ast.walk(n))]
         ctx.check("R7", len(tests) >= 1, f"_parse_config: a configured {hk} that does not exist is rejected", f"config._parse_config: a configured {hk} that does not exist is accepted",
                   "no `if <hook> and not Path(<hook>).exists(): raise` test found", loc=pcfg_fn.loc())
+
+
+def write_all_rule(ctx, rule: str, eng: str) -> None:
+    """<eng>.rewrite_files evaluated with four abstract records (unchanged, changed, unchanged, changed): every record whose
+    lines changed is written once, to its own path, opened for text writing with newline='' and utf-8, as line_sep.join(new_lines)."""
+    import types
+    from sa.model import Abstract, CannotFold, EvalError
+    prog = ctx.prog
+    fn = prog.function(f"{eng}.rewrite_files")
+    ctx.visit(fn.fq)
+    recs = [types.SimpleNamespace(path=f"f{i}.txt", line_sep="\r\n" if i % 2 else "\n", old_lines=["a", f"v{i}", ""], new_lines=(["a", f"v{i}", ""] if i in (0, 2) else ["a", f"w{i}", ""]))
+            for i in range(4)]
+    writes: T.List[T.Tuple[str, T.Dict[str, T.Any], str]] = []
+
+    class F(Abstract):
+        def __init__(self, path: T.Any, kw: T.Dict[str, T.Any]):
+            self.path, self.kw = path, kw
+
+        def write(self, text: str) -> int:
+            writes.append((str(self.path), self.kw, text))
+            return len(text)
+
+    def opener(f: T.Any, node: ast.Call) -> F:
+        args = [f(a) for a in node.args]
+        kw = {k.arg: f(k.value) for k in node.keywords if k.arg}
+        if len(args) > 1:
+            kw.setdefault("mode", args[1])
+        return F(args[0], kw)
+    try:
+        env = {fn.params[0]: {"CONFIGURED": []}, fn.params[1]: "NEW_VINFO", "__strict__": True, "__calls__": False,
+               "__stubs__": {"iter_rewritten": lambda f, node: list(recs), "io.open": opener, "open": opener}}
+        try:
+            prog.run_body(fn, env)
+            err = None
+        except EvalError as ex:
+            err = str(ex)
+    except (CannotFold, TypeError, AttributeError, KeyError, ValueError, IndexError) as ex:
+        ctx.observe(f"{fn.fq} not evaluated ({type(ex).__name__}: {str(ex)[:80]})")
+        return
+    wrong = []
+    if err:
+        wrong.append(err)
+    for r in recs:
+        mine = [w for w in writes if w[0] == r.path]
+        changed = r.new_lines != r.old_lines
+        if changed and len(mine) != 1:
+            wrong.append(f"{r.path} (changed) is written {len(mine)} times")
+        for _p, kw, text in mine:
+            if text != r.line_sep.join(r.new_lines):
+                wrong.append(f"{r.path}: written text is not line_sep.join(new_lines)")
+            if kw.get("mode") not in ("w", "wt") or kw.get("newline") != "" or str(kw.get("encoding")).lower().replace("-", "") != "utf8":
+                wrong.append(f"{r.path}: opened with {kw}")
+    ctx.check(rule, not wrong, f"{fn.fq}: every changed record is written once, to its path, as line_sep.join(new_lines) (4 records evaluated)",
+              f"{fn.fq}: a file whose lines changed is not written (or not as computed)", "; ".join(wrong[:3]) + " - the real run leaves files behind that --dry showed as changed", loc=fn.loc(),
+              witness={"files": "an unchanged pattern file listed before changed ones"})
